@@ -89,6 +89,24 @@ theorem eval_call_bound {fr : Frame} {f : String} {c : Val} (h : lookup f fr.env
   · simp [callNamed, hg]
 
 
+/-- `SeqValsAny cfg fr es st vs st'`: the expressions `es` evaluate left to right from `st`, each
+with *some* amount of fuel, to the non-error values `vs`, reaching `st'` -/
+inductive SeqValsAny (cfg : Cfg) (fr : Frame) : List Expr → St → List Val → St → Prop
+  | nil (st : St) : SeqValsAny cfg fr [] st [] st
+  | cons {n : Nat} {e : Expr} {rest : List Expr} {st st1 st' : St} {v : Val} {vs : List Val} :
+      eval n cfg fr e false st = (.val v, st1) → v.isErr = false →
+      SeqValsAny cfg fr rest st1 vs st' → SeqValsAny cfg fr (e :: rest) st (v :: vs) st'
+
+theorem SeqValsAny.enough {cfg : Cfg} {fr : Frame} {es : List Expr} {st st' : St} {vs : List Val}
+    (h : SeqValsAny cfg fr es st vs st') : ∃ N, ∀ n, N ≤ n → SeqVals cfg fr n es st vs st' := by
+  induction h with
+  | nil st => exact ⟨0, fun n _ => .nil n st⟩
+  | @cons n0 e rest st st1 st' v vs he hv _ ih =>
+    obtain ⟨N', hN'⟩ := ih
+    refine ⟨max (n0 + 1) (N' + 1), fun n hn => ?_⟩
+    obtain ⟨n', rfl⟩ : ∃ n', n = n' + 1 := ⟨n - 1, by omega⟩
+    exact .cons (eval_mono (by omega) he (by simp)) hv (hN' n' (by omega))
+
 /-! ## Dynamic sub-evaluations
 
 A *configuration* is one invocation of one of the ten mutually recursive functions of the evaluator
